@@ -5,7 +5,7 @@
 From Coq Require Import List String Ascii Bool Permutation Lia.
 Import ListNotations.
 From DI Require Import Syntax Tokens Bounds Param Subs Superset Substitute Spec RustSem Group Search Gen GenMain Validate IMap Hygiene Dispatch Examples ExamplesGroup ExamplesF16.
-From DI.proofs Require Import Basics SupersetSound SupersetExact SupersetComplete SupersetWf SubstituteProofs SubstituteSpec BoundsProofs DispatchProofs GroupProofs SearchProofs SearchFlat SearchNested FlatSemantics FlatConcrete GenProofs GenMainProofs GenMainArgs ParamProofs ParamAlpha ParamCanon ParamOrder RustSemProofs ValidateProofs IMapProofs HygieneProofs.
+From DI.proofs Require Import Basics SupersetSound SupersetExact SupersetComplete SupersetWf SubstituteProofs SubstituteSpec BoundsProofs DispatchProofs GroupProofs SearchProofs SearchFlat SearchNested FlatSemantics FlatConcrete GenProofs GenMainProofs GenMainArgs ParamProofs ParamNames ParamAlpha ParamCanon ParamOrder RustSemProofs ValidateProofs IMapProofs HygieneProofs.
 
 (* ===================================================================================== *)
 (* C09 -- header generalisation is exact first-order matching                             *)
@@ -434,6 +434,17 @@ Print Assumptions C05_search_order_independence_refuted.
 Theorem C13_injective_numbering : forall b, NoDup (map snd (indexed (index_block b))).
 Proof. exact index_block_injective. Qed.
 Print Assumptions C13_injective_numbering.
+
+(* ... and therefore distinct canonical NAMES: the identifier `_ŠČ<k>` determines k (the decimal
+   printer is injective), for every block *)
+Theorem C13_distinct_names : forall b,
+  NoDup (map (fun e => canon_name (snd e)) (indexed (index_block b))).
+Proof. exact canonical_names_distinct. Qed.
+Print Assumptions C13_distinct_names.
+
+Theorem C13_canonical_name_determines_number : forall a b, canon_name a = canon_name b -> a = b.
+Proof. exact canon_name_inj. Qed.
+Print Assumptions C13_canonical_name_determines_number.
 
 (* non-vacuity: the first block of ExamplesGroup is canonical already: canonicalising it
    again changes nothing, and its two parameters are numbered 0 and 1 *)
